@@ -258,7 +258,10 @@ def regen_layouts(scr, verdict, binp, prop, stats):
         # a second custom typeref whose namespace has an `internal` component: its package directory is gr/_internal/time
         # (the generator escapes the component), and that is where the hand-written file lives
         types += [grammar.named("typeref", "IT", ns="gr.internal.time", type="int64", isCustom=False),
-                  grammar.record("UsesIT", [grammar.F("at", grammar.R("IT", "gr.internal.time")), grammar.F("ats", {"map": grammar.R("IT", "gr.internal.time")}, optional=True)])]
+                  # ... and a namespace whose LAST component is `internal` (Go forbids importing .../internal from outside its parent)
+                  grammar.record("Hidden", [grammar.F("h", grammar.P("int32"), optional=True)], ns="gr.ext.internal"),
+                  grammar.record("UsesIT", [grammar.F("at", grammar.R("IT", "gr.internal.time")), grammar.F("ats", {"map": grammar.R("IT", "gr.internal.time")}, optional=True),
+                                            grammar.F("hid", grammar.R("Hidden", "gr.ext.internal"), optional=True)])]
         # two records that the REDUCED manifest of the third run no longer has: their files must disappear
         gone = [grammar.record("Zeta", [grammar.F("z", grammar.P("int32"))]), grammar.record("Omega", [grammar.F("o", grammar.P("string"), optional=True)], ns="gr.internal.time")]
         m = {"packageRoot": root, "inputDataTypes": types + gone, "dependencyDataTypes": [], "resources": []}
